@@ -103,18 +103,12 @@ bool TemporalMetricStorage::buildMetrics(CollectorHandle *collector,
   {
     agg_hashmap->GetAllEnteries(
         [&merged_metrics, this](const MetricAttributes &attributes, Aggregation &aggregation) {
-          auto agg = merged_metrics->Get(attributes);
-          if (agg)
-          {
-            merged_metrics->Set(attributes, agg->Merge(aggregation));
-          }
-          else
-          {
-            merged_metrics->Set(attributes,
-                                DefaultAggregation::CreateAggregation(
-                                    aggregation_type_, instrument_descriptor_, aggregation_config_)
-                                    ->Merge(aggregation));
-          }
+          // existing series, or the overflow series once the table is full, or a new default
+          auto agg = merged_metrics->GetOrSetDefault(attributes, [this]() {
+            return DefaultAggregation::CreateAggregation(aggregation_type_, instrument_descriptor_,
+                                                         aggregation_config_);
+          });
+          merged_metrics->Set(attributes, agg->Merge(aggregation));
           return true;
         });
   }
@@ -136,17 +130,11 @@ bool TemporalMetricStorage::buildMetrics(CollectorHandle *collector,
       // merge current delta to previous cumulative
       last_aggr_hashmap->GetAllEnteries(
           [&merged_metrics, this](const MetricAttributes &attributes, Aggregation &aggregation) {
-            auto agg = merged_metrics->Get(attributes);
-            if (agg)
-            {
-              merged_metrics->Set(attributes, agg->Merge(aggregation));
-            }
-            else
-            {
-              auto def_agg = DefaultAggregation::CreateAggregation(
+            auto agg = merged_metrics->GetOrSetDefault(attributes, [this]() {
+              return DefaultAggregation::CreateAggregation(
                   aggregation_type_, instrument_descriptor_, aggregation_config_);
-              merged_metrics->Set(attributes, def_agg->Merge(aggregation));
-            }
+            });
+            merged_metrics->Set(attributes, agg->Merge(aggregation));
             return true;
           });
     }
